@@ -33,7 +33,7 @@ from mingus.containers.instrument import MidiInstrument
 from mingus.containers.note import Note
 from mingus.containers.note_container import NoteContainer
 from mingus.containers.track import Track
-from mingus.core.keys import Key
+from mingus.core.keys import Key, major_keys, minor_keys
 
 
 def MIDI_to_Composition(file):
@@ -159,16 +159,13 @@ class MidiFile(object):
                         # Key Signature
                         d = event["data"]
                         sharps = self.bytes_to_int(d[0])
-                        minor = self.bytes_to_int(d[0])
+                        if sharps > 127:
+                            sharps -= 256
+                        minor = self.bytes_to_int(d[1])
                         if minor:
-                            key = "A"
+                            key = minor_keys[sharps + 7]
                         else:
-                            key = "C"
-                        for i in range(abs(sharps)):
-                            if sharps < 0:
-                                key = intervals.major_fourth(key)
-                            else:
-                                key = intervals.major_fifth(key)
+                            key = major_keys[sharps + 7]
                         b.key = Key(key)
                     else:
                         print("Unsupported META event", event["meta_event"])
